@@ -44,7 +44,7 @@ constexpr auto ceil_check(T const x) noexcept -> T
             !is_finite(x) ? x
                           :
                           // signed-zero cases
-            etl::numeric_limits<T>::epsilon() > abs(x) ? x
+            T(0) == x ? x
                                                        :
                                                        // else
             ceil_int(x, T(static_cast<llint_t>(x)))
